@@ -114,6 +114,22 @@ def coq_ukey(k, sh):
     return "KAll" if v == "all" else "(KText %s)" % sh.s(v)
 
 
+def coq_uentry(v, sh):
+    """one uncertainty entry: values typed int / float (NaN kept) / null"""
+    items = []
+    for name, x in v.items():
+        if x is None:
+            val = "UNull"
+        elif isinstance(x, bool):
+            raise ValueError("boolean in unc_vars")
+        elif isinstance(x, int):
+            val = "(UInt %s)" % zlit(x)
+        else:
+            val = "(UFloat %s)" % fhex(float(x))
+        items.append("(%s, %s)" % (sh.s(name), val))
+    return coq_list(items)
+
+
 def coq_ct_state(st, sh):
     segs = coq_list(["{| sg_name := %s; sg_formula := %s; sg_params := %s; sg_warnings := %s |}" % (
         sh.s(s["name"]), "None" if s["formula"] is None else "(Some %s)" % sh.s(s["formula"]),
@@ -124,7 +140,7 @@ def coq_ct_state(st, sh):
             "ct_metadata := %s; ct_settings := %s; ct_totals := %s; ct_avgs := %s |}") % (
         sh.s(st["status"]), sh.s(st["method_name"]), segs, sh.s(st["prediction_segment_type"]), mapping,
         sh.s(st["processor"]), sh.s(st["occupancy"]), sh.s(st["occ_bins"]), sh.s(st["unocc_bins"]),
-        sh.s(st["segment_type"]), coq_list(["(%s, %s)" % (coq_ukey(k, sh), sh.json(v)) for k, v in st["unc"]]),
+        sh.s(st["segment_type"]), coq_list(["(%s, %s)" % (coq_ukey(k, sh), coq_uentry(v, sh)) for k, v in st["unc"]]),
         coq_warns(st["warnings"], sh), sh.json(st["metadata"]), sh.json(st["settings"]), coq_metrics(st["totals"], sh), coq_metrics(st["avgs"], sh))
 
 
@@ -137,6 +153,7 @@ def process_caltrack(run, results):
         doc = json.loads(res["js"])
         run.dist("caltrack: segment models", len(res["state"]["segments"]))
         run.dist("caltrack: unc_vars keys", ",".join(sorted({k[0] for k, _ in res["state"]["unc"]})))
+        run.dist("caltrack: calendar months with NaN uncertainty statistics", len(res.get("nan_months", [])))
         st_terms.append("(%s, %s)" % (coq_ct_state(res["state"], sh), sh.json(doc)))
         st_kept.append(res)
         s2 = res.get("state2")
